@@ -9,6 +9,9 @@ string is fed to an SGR terminal emulator (models/sgr.py) that starts in the def
   pairs  : fg x bg over representatives of every family (incl. invalid ones) x 32 effect subsets
   nocolor: no_color=True over every valid spec x effect subsets
   multi  : every ordered triple of representative formats as a multi chunk CHText (with plain parts)
+  grow   : every ordered pair of representative formats: a text is rendered, extended in place six times
+           (`+=` merging into the last chunk / starting a new chunk / plain / a text) and rendered after
+           every extension (each observation twice)
 
 Oracle (from the property statement): every visible character is shown with exactly the requested
 fg/bg/effects, the terminal is back in the default state after every chunk, strip_colors(str(x)) ==
@@ -43,7 +46,8 @@ ASSUMPTIONS = [
 ]
 REQUIRED_FEATURES = ["spec:name", "spec:int", "spec:rgb", "spec:gray", "spec:invalid", "pos:fg", "pos:bg",
                      "pos:fg+bg", "effects:5-of-5", "effects:explicit-False", "no_color", "bytes-compared",
-                     "multi-chunk", "strip-compared", "colon-form-emitted", "invalid-rejected"]
+                     "multi-chunk", "strip-compared", "colon-form-emitted", "invalid-rejected",
+                     "render-extend-in-place-render"]
 
 EFFECTS = sgr.EFFECTS
 TEXTS = ("", "x", "a b")
@@ -407,6 +411,45 @@ def check_multi(case, acc):
     return None
 
 
+# ---------------------------------------------------------------------------------------------- grow in place
+def check_grow(case, acc):
+    """A text is rendered, extended in place (`+=`: same colour as its last chunk -> merged, other colour ->
+    new chunk, plain after plain), and rendered again: every rendering must show the *current* text."""
+    fm = case["formats"]
+    fmts, states = [], []
+    for c, b, effs in fm:
+        c, b = dec(c), dec(b)
+        fmts.append(impl.ColorFmt(c, bg_color=b, **{e: True for e in effs}))
+        states.append((sgr.expected_index(c), sgr.expected_index(b), frozenset(effs)))
+    t = impl.CHText(fmts[0]("ab"))
+    want = [(ch, states[0]) for ch in "ab"]
+    steps = [(fmts[0]("c"), states[0], "c"), (fmts[1]("de"), states[1], "de"), (fmts[1]("f"), states[1], "f"),
+             ("x", sgr.DEFAULT, "x"), ("yz", sgr.DEFAULT, "yz"), (impl.CHText("w", fmts[0]("q")), None, "wq")]
+    for k in range(len(steps) + 1):
+        acc.trans(4)
+        for rep_ in (0, 1):                         # every observation twice: it must not change anything
+            s = str(t)
+            cells, final, problems = sgr.run(s)
+            if problems or final != sgr.DEFAULT or cells != want:
+                return ("grow:stale-or-wrong-rendering", f"str() after {k} in-place extensions does not show the "
+                        f"current text", s, [(c, st[0], st[1], sorted(st[2])) for c, st in want])
+            plain = "".join(c for c, _ in want)
+            if impl.CHText.strip_colors(s) != t.plain_text() or t.plain_text() != plain or len(t) != len(plain):
+                return ("grow:strip-differs-from-plain_text", "strip_colors(str(x)) != x.plain_text() after "
+                        "in-place extension", [impl.CHText.strip_colors(s), t.plain_text(), len(t)], plain)
+            f = format(t, "_^24")
+            if sgr.visible(f) != format(plain, "_^24") or impl.CHText.strip_colors(f) != format(plain, "_^24"):
+                return ("grow:format-differs", "format() after in-place extension", f, format(plain, "_^24"))
+        if k < len(steps):
+            x, st, txt = steps[k]
+            t += x
+            if st is None:
+                want = want + [("w", sgr.DEFAULT), ("q", states[0])]
+            else:
+                want = want + [(ch, st) for ch in txt]
+    return None
+
+
 # ---------------------------------------------------------------------------------------------- shards
 def run_shard(shard, tier, seed, acc):
     kind = shard[0]
@@ -480,6 +523,12 @@ def run_shard(shard, tier, seed, acc):
                 if trip == (1, 2, 4):
                     acc.sample(case)
                 _report(acc, v, case)
+        for pair in itertools.product(range(len(fm)), repeat=2):
+            case = {"kind": "grow", "formats": [[enc(fm[i][0]), enc(fm[i][1]), list(fm[i][2])] for i in pair]}
+            v = check_grow(case, acc)
+            acc.case(nontrivial=True, features=("render-extend-in-place-render",),
+                     outcome="grow-ok" if v is None else v[0])
+            _report(acc, v, case)
         return
     raise ValueError(shard)
 
@@ -487,6 +536,8 @@ def run_shard(shard, tier, seed, acc):
 def replay(case, acc):
     if case["kind"] == "multi":
         _report(acc, check_multi(case, acc), case)
+    elif case["kind"] == "grow":
+        _report(acc, check_grow(case, acc), case)
     else:
         v, outcome, feats, nt = check_case(case, acc)
         _report(acc, v, case)
